@@ -160,7 +160,11 @@ func mutate(r *gen.Rand, enc []byte) ([]byte, string) {
 func genCase(r *gen.Rand, i int) any {
 	buf := gen.Pick(r, bufSizes)
 	c := Case{Buf: buf, Sizes: genChunkings(r)}
-	switch k := r.Intn(20); {
+	k := r.Intn(20)
+	if os.Getenv("VERIF_RESP_MIX") == "malformed" && k < 10 && r.Chance(3, 4) {
+		k = 15 // C13 runs: mostly the malformed stream
+	}
+	switch {
 	case k < 10:
 		v := genWF(r, buf)
 		c.Op, c.V = "wf", &v
